@@ -60,7 +60,25 @@ def run(chk, repo):
            "command; after a timeout that path must apply the safe state",
            path)
     # the decision chain
+    # the timer restarts only where the switches confirm the coil
+    lg = [st for st in walk_no_nested(f) if isinstance(st, ast.Assign) and any(
+        is_self_attr(t, "lastGood") for t in st.targets)]
+    bad = []
+    for st in lg:
+        facts = {(unparse(e), t) for e, t in path_facts(st)}
+        if not ({("inPosition", True), ("isCorrect", True)} <= facts):
+            bad.append(st)
+    chk.ob("R27.2", sym, "lastGood is refreshed only when the valve is in "
+           "position and correct", bool(lg) and not bad,
+           bad[0] if bad else f,
+           f"`{unparse(bad[0])}` restarts the timeout without the switches "
+           f"confirming the position: a valve that never arrives is never "
+           f"timed out as long as that statement keeps running" if bad else
+           "one refresh, under `inPosition and isCorrect`")
     top = [s for s in body_without_docstring(f) if isinstance(s, ast.If)]
+    if len(top) != 1:
+        top = [s for s in top if match("inPosition and isCorrect", s.test)
+               is not None]
     need(len(top) == 1, f"{sym}: decision chain not found")
     b1 = top[0]
     need(len(b1.orelse) == 1 and isinstance(b1.orelse[0], ast.If),
@@ -125,6 +143,23 @@ def run(chk, repo):
         "False" and unparse(sr["lastGood"]) == "monotonic()"
     chk.ob("R27.4", V + ".reset", "reset clears the error and restarts the "
            "timer", ok, r, f"stores {sorted(sr)}")
+    rcfg = CFG(r)
+    for attr in ("error", "lastGood"):
+        nodes = [n for n in rcfg.nodes if n.kind == "stmt" and isinstance(
+            n.stmt, ast.Assign) and any(is_self_attr(t, attr)
+                                        for t in n.stmt.targets)]
+        ok = bool(nodes) and rcfg.must_pass(
+            rcfg.entry, lambda n: n in nodes, targets=[rcfg.exit])
+        chk.ob("R27.4", V + ".reset", f"every reset() stores {attr}", ok, r,
+               "unconditionally: the initial reset (no error pending) is "
+               "what starts the timer - skipping it leaves lastGood at "
+               "whatever it was and the first unconfirmed update times out "
+               "at once")
+    vc = repo.cls(V)
+    chk.ob("R27.4", V, "lastGood has no class-level default", "lastGood"
+           not in vc.attrs, vc.attr_stmts.get("lastGood", vc.node),
+           "a default timestamp hides a missing reset(): the valve would "
+           "measure its timeout from time 0")
     g = repo.func("ebpfcat.ebpfcat.PacketVar.get")
     ok = bool(find("bool(data[start] & mask)", g))
     chk.ob("R27.5", "ebpfcat.ebpfcat.PacketVar.get", "a bit variable reads "
